@@ -90,6 +90,15 @@ structure Scn where
   F : Array CF
   P : Option (Array Float)
   U : Array CF      -- `U` of the channel call, `full_W_H` of the solver
+  -- computed once per request from the fields above (with the model's `offs`, `bigPL`)
+  colsM : Nat := 0
+  ntTotM : Nat := 0
+  nteTotM : Nat := 0
+  rOffA : Array Nat := #[]
+  cOffA : Array Nat := #[]
+  fOffA : Array Nat := #[]
+  uOffA : Array Nat := #[]
+  hArr : Array CF := #[]
 
 def parseScn (toks : List String) : Option Scn := do
   let K ← (← kv toks "K").toNat?
@@ -111,8 +120,31 @@ def parseScn (toks : List String) : Option Scn := do
     | none => some none
   let U ← parseC (← (kv toks "U").orElse (fun _ => kv toks "WH"))
   if Nr.length = K ∧ Nt.length = K ∧ Ns.length = K then
-    some { K, Nr := Nr.toArray, Nt := Nt.toArray, NtE := NtE.toArray, Ns := Ns.toArray, jp, ext,
-           big, pl, noise, pe, F, P, U }
+    let ntTot := Nt.foldl (· + ·) 0
+    let nteTot := NtE.foldl (· + ·) 0
+    let cols := ntTot + nteTot
+    let rows := Nr.foldl (· + ·) 0
+    let NrA := Nr.toArray
+    let NtA := Nt.toArray
+    let NsA := Ns.toArray
+    let ntAll := Nt ++ NtE
+    let raw : Nat → Nat → CF := fun r c => big.getD (r * cols + c) 0
+    let plFun : Option (Nat → Nat → Float) :=
+      pl.map (fun a => fun k j => a.getD (k * (K + NtE.length) + j) 1.0)
+    let bigH := bigPL raw Nr ntAll plFun
+    let prefixSums (f : Nat → Nat) : Array Nat :=
+      (List.range (K + 1)).foldl (fun (acc : Array Nat) i =>
+        acc.push (match acc.back? with
+          | none => 0
+          | some v => v + f (i - 1))) #[]
+    some { K, Nr := NrA, Nt := NtA, NtE := NtE.toArray, Ns := NsA, jp, ext,
+           big, pl, noise, pe, F, P, U,
+           colsM := cols, ntTotM := ntTot, nteTotM := nteTot,
+           rOffA := (Array.range (K + 1)).map (fun i => offs Nr i),
+           cOffA := (Array.range (K + 1)).map (fun i => offs Nt i),
+           fOffA := prefixSums (fun i => (if jp then ntTot else NtA.getD i 0) * NsA.getD i 0),
+           uOffA := prefixSums (fun i => NrA.getD i 0 * NsA.getD i 0),
+           hArr := (Array.range (rows * cols)).map (fun i => bigH (i / cols) (i % cols)) }
   else none
 
 namespace Scn
@@ -120,30 +152,27 @@ variable (s : Scn)
 
 def nr (k : Fin s.K) : Nat := s.Nr.getD k.val 0
 def ns (k : Fin s.K) : Nat := s.Ns.getD k.val 0
-def ntTot : Nat := s.Nt.foldl (· + ·) 0
-def nteTot : Nat := s.NtE.foldl (· + ·) 0
-def ntAll : List Nat := s.Nt.toList ++ s.NtE.toList
-def cols : Nat := s.ntTot + s.nteTot
+def ntTot : Nat := s.ntTotM
+def nteTot : Nat := s.nteTotM
+def cols : Nat := s.colsM
 /-- transmit dimension seen by precoder `j`: own antennas (IC) or all users' antennas (JP) -/
 def t (j : Fin s.K) : Nat := if s.jp then s.ntTot else s.Nt.getD j.val 0
-def colOff (j : Fin s.K) : Nat := if s.jp then 0 else offs s.Nt.toList j.val
+def colOff (j : Fin s.K) : Nat := if s.jp then 0 else s.cOffA.getD j.val 0
 
-def bigRaw : Nat → Nat → CF := fun r c => s.big.getD (r * s.cols + c) 0
-def plFun : Option (Nat → Nat → Float) :=
-  s.pl.map (fun a => fun k j => a.getD (k * (s.K + s.NtE.size) + j) 1.0)
-def bigH : Nat → Nat → CF := bigPL s.bigRaw s.Nr.toList s.ntAll s.plFun
+/-- `big_H` (the model's `bigPL` of the request, evaluated once per request) -/
+def bigH : Nat → Nat → CF := fun r c => if c < s.cols then s.hArr.getD (r * s.cols + c) 0 else 0
 
 /-- `get_Hkl(k, j)` (IC) / `get_Hk(k)`, `get_Hk_without_ext_int(k)` (JP) -/
 def G (k : Fin s.K) (j : Fin s.K) : Mat CF (s.nr k) (s.t j) :=
-  blockOf s.bigH (offs s.Nr.toList k.val) (s.colOff j) (s.nr k) (s.t j)
+  blockOf s.bigH (s.rOffA.getD k.val 0) (s.colOff j) (s.nr k) (s.t j)
 /-- the external-interference columns of `big_H` at receiver `k` -/
 def He (k : Fin s.K) : Mat CF (s.nr k) s.nteTot :=
-  blockOf s.bigH (offs s.Nr.toList k.val) s.ntTot (s.nr k) s.nteTot
+  blockOf s.bigH (s.rOffA.getD k.val 0) s.ntTot (s.nr k) s.nteTot
 
-def fOff (j : Nat) : Nat := sumTo (fun i => (if s.jp then s.ntTot else s.Nt.getD i 0) * s.Ns.getD i 0) j
+def fOff (j : Nat) : Nat := s.fOffA.getD j 0
 def V0 (j : Fin s.K) : Mat CF (s.t j) (s.ns j) :=
   fun a b => s.F.getD (s.fOff j.val + a.val * s.ns j + b.val) 0
-def uOff (k : Nat) : Nat := sumTo (fun i => s.Nr.getD i 0 * s.Ns.getD i 0) k
+def uOff (k : Nat) : Nat := s.uOffA.getD k 0
 def Ucol (k : Fin s.K) : Mat CF (s.nr k) (s.ns k) :=
   fun a b => s.U.getD (s.uOff k.val + a.val * s.ns k + b.val) 0
 def WH (k : Fin s.K) : Mat CF (s.ns k) (s.nr k) :=
